@@ -149,6 +149,15 @@ fn derived_prior(data: &[u8], salt: u64) -> Option<Vec<u8>> {
     }
 }
 
+/// for the details of a failing clause: what the two output paths held before the commands
+fn derived_note(data: &[u8], salt: u64) -> String {
+    let d = |s: u64| match derived_prior(data, s) {
+        None => "was absent".to_string(),
+        Some(c) => format!("held {} bytes", c.len()),
+    };
+    format!("; before the commands the first -o path {}, the second {} (input: {} bytes)", d(salt), d(salt + 1), data.len())
+}
+
 /// `adlt convert -o a.dlt in.dlt`, `adlt convert -o b.dlt a.dlt`: returns (a, b) or None when the binary is not available
 fn convert_twice(data: &[u8]) -> Option<Result<(Vec<u8>, Vec<u8>), String>> {
     let bin = std::env::var("VERIF_ADLT_BIN").ok()?;
@@ -325,9 +334,9 @@ fn record_stream(sink: &mut Sink, start: u32, segs: Segs, extra: &[&str]) {
                                 Some(Ok((fa, fb))) => {
                                     tags.push("e2e_convert_twice".into());
                                     if fa != b1 {
-                                        verdict = fail("convert_o_writes_every_message_with_to_write", format!("file has {} bytes, to_write of the {} messages {}", fa.len(), r1.msgs.len(), b1.len()));
+                                        verdict = fail("convert_o_writes_every_message_with_to_write", format!("file has {} bytes, to_write of the {} messages {}{}", fa.len(), r1.msgs.len(), b1.len(), derived_note(&data, 0)));
                                     } else if fb != fa {
-                                        verdict = fail("export_of_export_identical", format!("{} vs {} bytes", fa.len(), fb.len()));
+                                        verdict = fail("export_of_export_identical", format!("{} vs {} bytes{}", fa.len(), fb.len(), derived_note(&data, 0)));
                                     }
                                 }
                             }
@@ -612,7 +621,7 @@ fn record_export_big(sink: &mut Sink, t0: u64, runs: Runs, extra: Vec<String>, b
                                     verdict = fail("convert_o_sizes_equal".into(), format!("input {} bytes, export {} bytes", inp.len(), a.len()));
                                 }
                                 if let Err((c, d)) = check_export(&inp, &r0, a, b) {
-                                    verdict = fail(format!("convert_o_{}", c), d.chars().take(600).collect());
+                                    verdict = fail(format!("convert_o_{}", c), d.chars().take(600).collect::<String>() + &derived_note(&inp, 2));
                                 }
                             }
                             None => {}
@@ -847,7 +856,7 @@ fn record_export(sink: &mut Sink, specs: Vec<MSpec>, extra: &[&str], bin: Option
                             Some(Err(e)) => verdict = fail("convert_o_runs".into(), e.clone()),
                             Some(Ok((a, b))) => {
                                 if let Err((c, d)) = check_export(&inp, &r0, a, b) {
-                                    verdict = fail(format!("convert_o_{}", c), d);
+                                    verdict = fail(format!("convert_o_{}", c), d + &derived_note(&inp, 2));
                                 }
                             }
                             None => {}
@@ -1072,6 +1081,523 @@ fn export_cases(out: &mut Vec<(Vec<MSpec>, Vec<String>)>, rng: &mut Rng, n: u64,
     }
 }
 
+// ------------------------------------------------------------------ family 4: the state of the `-o` path before the command
+/// State of a path before a command: None = absent; Some((specs, cut, junk)) = a file holding to_write of the messages
+/// `specs` without its last `cut` bytes, followed by the junk bytes (no specs, no junk: an empty file).
+type Prior = Option<(Vec<MSpec>, u64, Segs)>;
+
+fn prior_bytes(p: &Prior) -> Option<Vec<u8>> {
+    p.as_ref().map(|(specs, cut, junk)| {
+        let mut f = export_input(specs).unwrap_or_default();
+        f.truncate(f.len().saturating_sub(*cut as usize));
+        f.extend_from_slice(&flatten(junk));
+        f
+    })
+}
+fn coq_specs(specs: &[MSpec]) -> String {
+    clist(&specs.iter().map(|s| format!("({}, {}, {}, {}, {})", s.ecu, s.rt, s.ts_dms, cbool(s.has_ts), s.kind)).collect::<Vec<_>>())
+}
+fn coq_prior(p: &Prior) -> String {
+    copt(p.as_ref().map(|(specs, cut, junk)| format!("({}, {}, {})", coq_specs(specs), cut, coq_segs(junk))))
+}
+fn json_prior(p: &Prior) -> Value {
+    match p {
+        None => Value::Null,
+        Some((specs, cut, junk)) => json!([specs.iter().map(|m| m.json()).collect::<Vec<_>>(), cut, junk]),
+    }
+}
+fn prior_from_json(v: &Value) -> Prior {
+    if v.is_null() {
+        None
+    } else {
+        Some((v[0].as_array().unwrap().iter().map(MSpec::from_json).collect(), v[1].as_u64().unwrap(), serde_json::from_value(v[2].clone()).unwrap()))
+    }
+}
+fn o_prior(p: &Option<Vec<u8>>) -> O {
+    match p {
+        None => O::L(0),
+        Some(b) => o_file(b),
+    }
+}
+/// a path: absent / length + checksum, the message counters of the messages it re-reads to, bytes left over
+fn o_path(p: &Option<Vec<u8>>) -> O {
+    match p {
+        None => O::L(0),
+        Some(b) => O::T(vec![
+            o_file(b),
+            match read_all(0, b) {
+                Ok(ra) => O::T(vec![O::T(ra.msgs.iter().map(|m| O::n(m.mcnt())).collect()), O::n(ra.rest as u64)]),
+                Err(_) => O::L(1),
+            },
+        ]),
+    }
+}
+
+/// what the binary left behind: the state of out.dlt after every command of the chain, then the state of out2.dlt
+struct OverRun {
+    outs: Vec<Option<Vec<u8>>>,
+    out2: Option<Vec<u8>>,
+}
+/// out.dlt in state `pre`; `adlt convert -o out.dlt in_k.dlt` for every input in turn; out2.dlt in state `pre2`;
+/// `adlt convert -o out2.dlt out.dlt`.  None when there is no binary.
+fn convert_over(pre: &Option<Vec<u8>>, ins: &[Vec<u8>], pre2: &Option<Vec<u8>>) -> Option<Result<OverRun, String>> {
+    let bin = std::env::var("VERIF_ADLT_BIN").ok()?;
+    if !std::path::Path::new(&bin).exists() {
+        return None;
+    }
+    let dir = tempfile::tempdir().ok()?;
+    let p = |n: &str| dir.path().join(n);
+    let run = |out: &str, inp: &str| -> Result<Option<Vec<u8>>, String> {
+        let o = std::process::Command::new(&bin).arg("convert").arg("-o").arg(p(out)).arg(p(inp)).output().map_err(|e| e.to_string())?;
+        if !o.status.success() {
+            return Err(format!("adlt convert exit {:?}: {}", o.status.code(), String::from_utf8_lossy(&o.stderr)));
+        }
+        Ok(std::fs::read(p(out)).ok())
+    };
+    Some((|| {
+        if let Some(c) = pre {
+            std::fs::write(p("out.dlt"), c).map_err(|e| e.to_string())?;
+        }
+        let mut outs = vec![];
+        for (k, inp) in ins.iter().enumerate() {
+            let name = format!("in_{}.dlt", k);
+            std::fs::write(p(&name), inp).map_err(|e| e.to_string())?;
+            outs.push(run("out.dlt", &name)?);
+        }
+        if let Some(c) = pre2 {
+            std::fs::write(p("out2.dlt"), c).map_err(|e| e.to_string())?;
+        }
+        let out2 = if std::path::Path::new(&p("out.dlt")).exists() { run("out2.dlt", "out.dlt")? } else { None };
+        Ok(OverRun { outs, out2 })
+    })())
+}
+
+struct OverCase {
+    pre: Prior,
+    chain: Vec<Vec<MSpec>>,
+    pre2: Prior,
+    tags: Vec<String>,
+}
+
+fn len_rel(prior: Option<usize>, export: usize) -> &'static str {
+    match prior {
+        None => "absent",
+        Some(0) if export > 0 => "empty",
+        Some(n) if n > export => "longer",
+        Some(n) if n < export => "shorter",
+        Some(_) => "same_length",
+    }
+}
+
+fn record_export_over(sink: &mut Sink, c: OverCase, run: Option<Option<Result<OverRun, String>>>) {
+    let fail = |c: String, d: String| Verdict::Fail { clause: c, detail: d };
+    let mut verdict = Verdict::Ok;
+    let mut tags = c.tags.clone();
+    tags.push("export_over".into());
+    tags.push(format!("over_chain{}", c.chain.len().min(4)));
+    let pre = prior_bytes(&c.pre);
+    let pre2 = prior_bytes(&c.pre2);
+    let ins: Vec<Vec<u8>> = c.chain.iter().map(|s| export_input(s).unwrap_or_default()).collect();
+    let run = run.unwrap_or_else(|| convert_over(&pre, &ins, &pre2));
+    let mut nontrivial = false;
+    let obs = match run {
+        None => {
+            // no binary: nothing of this family can be observed
+            tags.push("e2e_skipped_no_binary".into());
+            O::T(vec![O::L(12)])
+        }
+        Some(Err(e)) => {
+            verdict = fail("convert_o_runs".into(), e);
+            O::T(vec![O::L(13)])
+        }
+        Some(Ok(r)) => {
+            let mut before: Option<Vec<u8>> = pre.clone();
+            let mut steps = vec![];
+            let mut some_longer = false;
+            for (k, (inp, out)) in ins.iter().zip(r.outs.iter()).enumerate() {
+                let rel = len_rel(before.as_ref().map(|b| b.len()), inp.len());
+                tags.push(format!("over_step_prior_{}", rel));
+                if before.as_ref() == Some(inp) {
+                    tags.push("over_step_prior_is_this_export".into());
+                }
+                some_longer |= rel == "longer";
+                let held = match &before {
+                    None => "the -o path did not exist before the command".to_string(),
+                    Some(b) => format!("the -o path held {} bytes before the command ({})", b.len(), rel),
+                };
+                if matches!(verdict, Verdict::Ok) {
+                    match (read_all(0, inp), out) {
+                        (Err(e), _) => verdict = fail("input_readable".into(), e),
+                        (_, None) => verdict = fail("convert_o_over_existing_file_written".into(), format!("command {}: no file at the -o path afterwards; {}", k, held)),
+                        (Ok(r0), Some(a)) => {
+                            // the clause on the file the command left behind ...
+                            if let Err((cl, d)) = check_export(inp, &r0, a, a) {
+                                verdict = fail(format!("convert_o_over_existing_{}", cl), format!("command {} of {}: {}; {}", k, ins.len(), d.chars().take(500).collect::<String>(), held));
+                            } else {
+                                // ... and byte for byte: to_write of every message of the input, nothing else
+                                match write_all(&r0.msgs) {
+                                    Ok(w) if w == *a => {}
+                                    Ok(w) => verdict = fail("convert_o_over_existing_bytes_exact".into(), format!("command {} of {}: the file has {} bytes, to_write of the {} input messages {}; {}", k, ins.len(), a.len(), r0.msgs.len(), w.len(), held)),
+                                    Err(e) => verdict = fail("write_ok".into(), e),
+                                }
+                            }
+                        }
+                    }
+                }
+                steps.push(O::T(vec![o_file(inp), o_path(out)]));
+                before = out.clone();
+            }
+            let last = before;
+            let fin = match &last {
+                None => O::L(3),
+                Some(a) => {
+                    let rel = len_rel(pre2.as_ref().map(|b| b.len()), a.len());
+                    tags.push(format!("over_pre2_{}", rel));
+                    some_longer |= rel == "longer";
+                    match &r.out2 {
+                        None => {
+                            if matches!(verdict, Verdict::Ok) {
+                                verdict = fail("convert_o_over_existing_file_written".into(), "export of the export: no file at the -o path afterwards".into());
+                            }
+                            O::L(2)
+                        }
+                        Some(b) => {
+                            if matches!(verdict, Verdict::Ok) && b != a {
+                                verdict = fail(
+                                    "convert_o_over_existing_export_of_export_identical".into(),
+                                    format!("{} vs {} bytes, first difference at {:?}; the second -o path held {:?} bytes before the command ({})", a.len(), b.len(),
+                                        a.iter().zip(b.iter()).position(|(x, y)| x != y), pre2.as_ref().map(|x| x.len()), rel),
+                                );
+                            }
+                            O::T(vec![o_file(b), O::b(a == b)])
+                        }
+                    }
+                }
+            };
+            if some_longer {
+                tags.push("over_some_prior_longer".into());
+            }
+            nontrivial = some_longer && c.chain.iter().any(|s| s.len() >= 3);
+            O::T(vec![O::L(10), O::T(vec![o_prior(&pre), o_prior(&pre2)]), O::T(steps), fin])
+        }
+    };
+    let input_coq = format!("(CExportOver {} {} {})", coq_prior(&c.pre), clist(&c.chain.iter().map(|s| coq_specs(s)).collect::<Vec<_>>()), coq_prior(&c.pre2));
+    let id = sink.next_id();
+    sink.push(Case {
+        id,
+        key: input_coq.clone(),
+        input_coq,
+        input_json: json!({"kind": "export_over", "pre": json_prior(&c.pre), "chain": c.chain.iter().map(|s| s.iter().map(|m| m.json()).collect::<Vec<_>>()).collect::<Vec<_>>(), "pre2": json_prior(&c.pre2)}),
+        obs,
+        verdict,
+        classes: vec![],
+        tags,
+        nontrivial,
+    });
+}
+
+/// the binary runs of the family, in parallel (process spawns only)
+fn record_exports_over(sink: &mut Sink, cases: Vec<OverCase>) {
+    let next = std::sync::atomic::AtomicUsize::new(0);
+    let out: std::sync::Mutex<Vec<Option<Option<Result<OverRun, String>>>>> = std::sync::Mutex::new(cases.iter().map(|_| None).collect());
+    let nthreads = std::thread::available_parallelism().map(|n| n.get()).unwrap_or(4).clamp(2, 8);
+    std::thread::scope(|sc| {
+        for _ in 0..nthreads {
+            sc.spawn(|| loop {
+                let k = next.fetch_add(1, std::sync::atomic::Ordering::SeqCst);
+                if k >= cases.len() {
+                    break;
+                }
+                let c = &cases[k];
+                let ins: Vec<Vec<u8>> = c.chain.iter().map(|s| export_input(s).unwrap_or_default()).collect();
+                let r = convert_over(&prior_bytes(&c.pre), &ins, &prior_bytes(&c.pre2));
+                out.lock().unwrap()[k] = Some(r);
+            });
+        }
+    });
+    let runs = out.into_inner().unwrap();
+    for (c, r) in cases.into_iter().zip(runs.into_iter()) {
+        record_export_over(sink, c, r);
+    }
+}
+
+/// n junk bytes, described run-length: a random head, a filler (one byte value, or the storage-header marker repeated, or a
+/// marker followed by zeros: "messages" that do not parse), a random tail
+fn gen_junk(rng: &mut Rng, n: usize) -> Segs {
+    if n == 0 {
+        return vec![];
+    }
+    let mode = rng.below(4);
+    if n <= 24 {
+        return vec![(1, g::rbytes(rng, n, mode))];
+    }
+    let hl = rng.range(1, 12) as usize;
+    let head = g::rbytes(rng, hl, mode);
+    let block: Vec<u8> = match rng.below(5) {
+        0 => vec![0x5a],
+        1 => vec![0],
+        2 => b"DLT\x01".to_vec(),
+        3 => b"DLT\x01\0\0\0\0\0\0\0\0ECU1\x35\0\0".to_vec(),
+        _ => {
+            let bl = rng.range(2, 7) as usize;
+            g::rbytes(rng, bl, 0)
+        }
+    };
+    let count = (n - head.len()) / block.len();
+    let tail = g::rbytes(rng, n - head.len() - count * block.len(), mode);
+    let mut v: Segs = vec![(1, head)];
+    if count > 0 {
+        v.push((count as u64, block));
+    }
+    if !tail.is_empty() {
+        v.push((1, tail));
+    }
+    v
+}
+
+fn gen_small_specs(rng: &mut Rng) -> Vec<MSpec> {
+    match rng.below(8) {
+        0 | 1 => gen_merge_back(rng).0,
+        2 => lcgen::gen_scenario(rng),
+        3 => lcgen::gen_resume_chain(rng),
+        4 => lcgen::gen_clean(rng).msgs,
+        5 => lcgen::gen_merge_template(rng),
+        _ => {
+            let max_len = *rng.pick(&[3u64, 8, 14, 30]);
+            lcgen::gen_general(rng, max_len)
+        }
+    }
+}
+/// a file longer than `len` bytes made of messages: `base` (may be empty) followed by further messages
+fn longer_specs(rng: &mut Rng, base: &[MSpec], len: usize) -> Vec<MSpec> {
+    let mut v = base.to_vec();
+    loop {
+        let more = gen_small_specs(rng);
+        let k = if rng.chance(1, 3) { 1 } else { more.len() };
+        v.extend(more.into_iter().take(k.max(1)));
+        if v.len() > base.len() && export_input(&v).map_or(0, |f| f.len()) > len {
+            return v;
+        }
+        if v.len() > 400 {
+            return v;
+        }
+    }
+}
+
+/// the state of a path before a command that will leave `len` bytes (the export of `input`) there
+fn gen_prior(rng: &mut Rng, kind: u64, input: &[MSpec], len: usize) -> (Prior, &'static str) {
+    let none: Vec<MSpec> = vec![];
+    match kind {
+        0 => (None, "absent"),
+        1 => (Some((none, 0, vec![])), "empty"),
+        2 => {
+            let n = if len <= 1 { 1 } else { rng.range(1, len as u64 - 1) as usize };
+            (Some((none, 0, gen_junk(rng, n))), "junk_shorter")
+        }
+        3 => {
+            let d = match rng.below(6) { 0 => rng.range(1, 4), 1 => rng.range(5, 40), 2 => rng.range(41, 600), 3 => rng.range(601, 9000), 4 => rng.range(60_000, 140_000), _ => rng.range(1, 3000) } as usize;
+            (Some((none, 0, gen_junk(rng, len + d))), "junk_longer")
+        }
+        4 => (Some((none, 0, gen_junk(rng, len.max(1)))), "junk_same_length"),
+        5 => (Some((longer_specs(rng, &[], len), 0, vec![])), "other_file_longer"),
+        6 => {
+            // another file ending in a truncated frame and / or junk, longer
+            let specs = longer_specs(rng, &[], len + 40);
+            let cut = rng.range(1, 19);
+            let j = if rng.chance(1, 2) { 0 } else { rng.range(1, 30) as usize };
+            (Some((specs, cut, gen_junk(rng, j))), "other_file_longer_damaged_end")
+        }
+        7 => {
+            // the export itself followed by 1..4 bytes (too few for the iterator to look at) or a few more
+            let j = if rng.chance(3, 4) { rng.range(1, 4) } else { rng.range(5, 15) } as usize;
+            let junk = if rng.chance(1, 2) { vec![(1u64, b"DLT\x01DLT\x01DLT\x01DLT\x01"[..j].to_vec())] } else { gen_junk(rng, j) };
+            (Some((input.to_vec(), 0, junk)), "this_export_plus_few_bytes")
+        }
+        8 => (Some((longer_specs(rng, input, len), 0, vec![])), "this_export_plus_messages"),
+        9 => (Some((input.to_vec(), 0, vec![])), "this_export"),
+        _ => {
+            // a shorter file of messages: a proper prefix of the input's messages, or another small file
+            let k = if input.len() >= 2 { rng.range(1, input.len() as u64 - 1) as usize } else { 0 };
+            if k > 0 && rng.chance(2, 3) {
+                (Some((input[..k].to_vec(), 0, vec![])), "prefix_of_this_export")
+            } else {
+                let o = lcgen::gen_general(rng, 3);
+                (Some((o, 0, vec![])), "other_file_small")
+            }
+        }
+    }
+}
+
+fn over_case(rng: &mut Rng, form: u64) -> OverCase {
+    let mut tags: Vec<String> = vec![];
+    let flen = |s: &Vec<MSpec>| export_input(s).map_or(0, |f| f.len());
+    let x = gen_small_specs(rng);
+    let (chain, pre_kind): (Vec<Vec<MSpec>>, u64) = match form {
+        // one command, every kind of prior state
+        0..=10 => {
+            tags.push("over_single".into());
+            (vec![x], form)
+        }
+        // a longer earlier export of another input, written by the binary itself: big -> out, small -> out
+        11 | 12 => {
+            tags.push("over_big_then_small".into());
+            let big = longer_specs(rng, &[], flen(&x));
+            (vec![big, x], *rng.pick(&[0, 0, 1, 3, 5]))
+        }
+        // the same export twice
+        13 => {
+            tags.push("over_same_twice".into());
+            (vec![x.clone(), x], *rng.pick(&[0, 3, 5]))
+        }
+        14 => {
+            tags.push("over_small_then_big".into());
+            let big = longer_specs(rng, &[], flen(&x));
+            (vec![x, big], *rng.pick(&[0, 2, 3]))
+        }
+        // three commands, sizes in any order, the empty input among them now and then
+        _ => {
+            tags.push("over_three".into());
+            let mut v = vec![x];
+            for _ in 0..2 {
+                v.push(if rng.chance(1, 8) { vec![] } else if rng.chance(1, 2) { gen_small_specs(rng) } else { lcgen::gen_general(rng, 4) });
+            }
+            // a decreasing order now and then, so that every command finds a longer file
+            if rng.chance(1, 2) {
+                v.sort_by_key(|s| std::cmp::Reverse(flen(s)));
+            }
+            (v, rng.below(11))
+        }
+    };
+    let (pre, pt) = gen_prior(rng, pre_kind, &chain[0], flen(&chain[0]));
+    tags.push(format!("over_pre_{}", pt));
+    let last = chain.last().unwrap().clone();
+    let k2 = match rng.below(10) { 0 | 1 => 0, 2 => 1, 3 | 4 => 3, 5 => 5, 6 => 6, 7 => 7, 8 => 8, _ => rng.below(11) };
+    let (pre2, pt2) = gen_prior(rng, k2, &last, flen(&last));
+    tags.push(format!("over_second_pre_{}", pt2));
+    OverCase { pre, chain, pre2, tags }
+}
+
+fn over_corpus() -> Vec<OverCase> {
+    let t = |l: &[&str]| -> Vec<String> { l.iter().map(|s| s.to_string()).collect() };
+    let big = merge_back_dense(2, 36, 2); // 41 messages
+    let small = merge_back_dense(1, 2, 0); // 4 messages
+    let mid = merge_back_dense(1, 12, 2);
+    let junk = |n: u64| -> Segs { vec![(1, b"\x00\x01junk".to_vec()), (n, vec![0x5a])] };
+    let mut v = vec![
+        // a larger export first, a smaller one over it, the export of the export to a fresh path / over a longer file
+        OverCase { pre: None, chain: vec![big.clone(), small.clone()], pre2: None, tags: t(&["corpus", "over_big_then_small"]) },
+        OverCase { pre: None, chain: vec![big.clone(), small.clone()], pre2: Some((big.clone(), 0, vec![])), tags: t(&["corpus", "over_big_then_small"]) },
+        OverCase { pre: None, chain: vec![big.clone(), mid.clone(), small.clone()], pre2: Some((vec![], 0, junk(3000))), tags: t(&["corpus", "over_three"]) },
+        OverCase { pre: Some((big.clone(), 0, vec![])), chain: vec![mid.clone(), mid.clone()], pre2: Some((mid.clone(), 0, vec![(1, vec![68])])), tags: t(&["corpus", "over_same_twice"]) },
+        // the empty input over a file: nothing may be left
+        OverCase { pre: Some((mid.clone(), 0, vec![])), chain: vec![vec![]], pre2: Some((small.clone(), 0, vec![])), tags: t(&["corpus", "over_empty_input"]) },
+        OverCase { pre: None, chain: vec![mid.clone(), vec![]], pre2: None, tags: t(&["corpus", "over_empty_input"]) },
+    ];
+    // one command over every kind of prior state (fixed instances)
+    let len = export_input(&mid).map_or(0, |f| f.len()) as u64;
+    let priors: Vec<(Prior, &str)> = vec![
+        (None, "absent"),
+        (Some((vec![], 0, vec![])), "empty"),
+        (Some((vec![], 0, junk(len / 2))), "junk_shorter"),
+        (Some((vec![], 0, junk(len - 6))), "junk_same_length"),
+        (Some((vec![], 0, junk(len - 5))), "junk_longer"),
+        (Some((vec![], 0, junk(len + 70_000))), "junk_longer"),
+        (Some((mid.clone(), 0, vec![(1, vec![0])])), "this_export_plus_few_bytes"),
+        (Some((mid.clone(), 0, vec![(1, b"DLT\x01".to_vec())])), "this_export_plus_few_bytes"),
+        (Some((big.clone(), 0, vec![])), "other_file_longer"),
+        (Some((big.clone(), 7, vec![])), "other_file_longer_damaged_end"),
+        (Some((small.clone(), 0, vec![])), "other_file_small"),
+        (Some((mid.clone(), 0, vec![])), "this_export"),
+    ];
+    for (k, (p, name)) in priors.iter().enumerate() {
+        let p2 = priors[(k * 5 + 3) % priors.len()].0.clone();
+        v.push(OverCase { pre: p.clone(), chain: vec![mid.clone()], pre2: p2, tags: vec!["corpus".to_string(), "over_single".to_string(), format!("over_pre_{}", name)] });
+    }
+    v
+}
+
+// ------------------------------------------------------------------ family 5: the library's export writer (plugins/export.rs)
+/// ExportPlugin without filters (the library's "export everything" writer): the file named in its configuration is in
+/// state `pre` before the plugin is built; every message of the input file is processed; sync_all.  The file must hold the
+/// plugin's info messages (VsDl/Info) followed by exactly to_write of the input's messages, whatever it held before.
+fn record_export_plugin(sink: &mut Sink, pre: Prior, specs: Vec<MSpec>, extra: &[&str]) {
+    let fail = |c: &str, d: String| Verdict::Fail { clause: c.into(), detail: d };
+    let mut verdict = Verdict::Ok;
+    let mut tags: Vec<String> = extra.iter().map(|s| s.to_string()).collect();
+    tags.push("export_plugin".into());
+    let inp = export_input(&specs).unwrap_or_default();
+    let prior = prior_bytes(&pre);
+    tags.push(format!("plugin_prior_{}", len_rel(prior.as_ref().map(|b| b.len()), inp.len() + 100)));
+    let dir = tempfile::tempdir().expect("tempdir");
+    let path = dir.path().join("export.dlt");
+    if let Some(c) = &prior {
+        std::fs::write(&path, c).expect("write prior");
+    }
+    let r0 = read_all(0, &inp);
+    let msgs: Vec<DltMessage> = r0.as_ref().map(|r| r.msgs.clone()).unwrap_or_default();
+    let path_s = path.to_string_lossy().to_string();
+    let ran = {
+        let msgs = msgs.clone();
+        catch_loc(move || {
+            use adlt::plugins::plugin::Plugin;
+            let cfg = json!({"name": "Export", "enabled": true, "exportFileName": path_s, "filters": []});
+            let mut plugin = adlt::plugins::export::ExportPlugin::from_json(cfg.as_object().unwrap()).map_err(|e| e.to_string())?;
+            for m in msgs.iter() {
+                let mut m2 = m.clone();
+                plugin.process_msg(&mut m2);
+            }
+            plugin.sync_all();
+            drop(plugin);
+            Ok::<(), String>(())
+        })
+    };
+    let after = std::fs::read(&path).ok();
+    let held = format!("the export path held {:?} bytes before", prior.as_ref().map(|b| b.len()));
+    let mut body: Option<Vec<u8>> = None;
+    match (&ran, &r0) {
+        (Err(e), _) => verdict = fail("export_plugin_runs", e.clone()),
+        (Ok(Err(e)), _) => verdict = fail("export_plugin_runs", e.clone()),
+        (_, Err(e)) => verdict = fail("input_readable", e.clone()),
+        (Ok(Ok(())), Ok(r0)) => match &after {
+            None => {
+                if !msgs.is_empty() {
+                    verdict = fail("export_plugin_file_written", format!("{} messages processed, no file; {}", msgs.len(), held));
+                }
+            }
+            Some(f) => match read_all(0, f) {
+                Err(e) => verdict = fail("export_plugin_export_readable", e),
+                Ok(rf) => {
+                    let info_a = DltChar4::from_buf(b"VsDl");
+                    let info_c = DltChar4::from_buf(b"Info");
+                    let ninfo = rf.msgs.iter().take_while(|m| m.apid() == Some(&info_a) && m.ctid() == Some(&info_c)).count();
+                    let off: usize = rf.msgs.iter().take(ninfo).map(|m| 16 + m.standard_header.len as usize).sum();
+                    let b = f[off.min(f.len())..].to_vec();
+                    if msgs.is_empty() {
+                        if !rf.msgs.is_empty() {
+                            verdict = fail("export_plugin_every_message", format!("no message processed, the file re-reads to {} messages; {}", rf.msgs.len(), held));
+                        }
+                    } else if rf.skipped != 0 || rf.rest != 0 || rf.processed != f.len() {
+                        verdict = fail("export_plugin_export_is_a_sequence_of_messages", format!("skipped {} processed {} of {} rest {}; {}", rf.skipped, rf.processed, f.len(), rf.rest, held));
+                    } else if ninfo == 0 {
+                        verdict = fail("export_plugin_info_message_first", format!("first message is not the VsDl/Info message; {}", held));
+                    } else if let Err((cl, d)) = check_export(&inp, r0, &b, &b) {
+                        verdict = fail(&format!("export_plugin_{}", cl), format!("{}; {} info messages; {}", d.chars().take(500).collect::<String>(), ninfo, held));
+                    } else if write_all(&r0.msgs).ok().as_ref() != Some(&b) {
+                        verdict = fail("export_plugin_bytes_exact", format!("after the info messages the file has {} bytes, to_write of the {} input messages differs; {}", b.len(), msgs.len(), held));
+                    }
+                    body = Some(b);
+                }
+            },
+        },
+    }
+    let obs = O::T(vec![O::L(11), o_prior(&prior), o_file(&inp), if after.is_none() { O::L(0) } else { o_path(&body) }]);
+    let input_coq = format!("(CExportPlugin {} {})", coq_prior(&pre), coq_specs(&specs));
+    let id = sink.next_id();
+    let nontrivial = specs.len() >= 3 && prior.as_ref().map_or(false, |p| p.len() > inp.len() + 100);
+    sink.push(Case { id, key: input_coq.clone(), input_coq, input_json: json!({"kind": "export_plugin", "pre": json_prior(&pre), "specs": specs.iter().map(|m| m.json()).collect::<Vec<_>>()}),
+        obs, verdict, classes: vec![], tags, nontrivial });
+}
+
 #[derive(Clone)]
 struct CMsg {
     rt: u64,
@@ -1175,6 +1701,11 @@ fn main() {
         if c["kind"] == "export_runs" {
             let runs: Runs = c["runs"].as_array().unwrap().iter().map(|r| (r[0].as_u64().unwrap(), r[1].as_u64().unwrap(), r[2].as_bool().unwrap())).collect();
             record_export_big(&mut sink, c["t0"].as_u64().unwrap(), runs, vec!["replay".to_string()], None);
+        } else if c["kind"] == "export_over" {
+            let chain: Vec<Vec<MSpec>> = c["chain"].as_array().unwrap().iter().map(|s| s.as_array().unwrap().iter().map(MSpec::from_json).collect()).collect();
+            record_export_over(&mut sink, OverCase { pre: prior_from_json(&c["pre"]), chain, pre2: prior_from_json(&c["pre2"]), tags: vec!["replay".to_string()] }, None);
+        } else if c["kind"] == "export_plugin" {
+            record_export_plugin(&mut sink, prior_from_json(&c["pre"]), c["specs"].as_array().unwrap().iter().map(MSpec::from_json).collect(), &["replay"]);
         } else if c["kind"] == "export" {
             record_export(&mut sink, c["specs"].as_array().unwrap().iter().map(MSpec::from_json).collect(), &["replay"], None);
         } else if c["kind"] == "stream" {
@@ -1257,6 +1788,29 @@ fn main() {
         bigs.clear();
     }
     record_exports(&mut sink, xcases, bigs);
+    // family 4: the prior state of the `-o` path as an input dimension; family 5: the library's export writer
+    let mut orng = Rng::new(a.seed ^ 0x0f11_e5);
+    let mut ocases: Vec<OverCase> = if a.tier != "search" { over_corpus() } else { vec![] };
+    let no = a.count.map(|c| c / 3).unwrap_or(if quick { 96 } else if a.tier == "search" { 300 } else { 1200 });
+    for k in 0..no {
+        ocases.push(over_case(&mut orng, k % 18));
+    }
+    record_exports_over(&mut sink, ocases);
+    let np = a.count.map(|c| c / 8).unwrap_or(if quick { 36 } else if a.tier == "search" { 100 } else { 400 });
+    if a.tier != "search" {
+        let mid = merge_back_dense(1, 12, 2);
+        record_export_plugin(&mut sink, None, mid.clone(), &["corpus"]);
+        record_export_plugin(&mut sink, Some((merge_back_dense(2, 36, 2), 0, vec![])), mid.clone(), &["corpus"]);
+        record_export_plugin(&mut sink, Some((vec![], 0, vec![(5000, vec![0x5a])])), mid.clone(), &["corpus"]);
+        record_export_plugin(&mut sink, Some((mid, 0, vec![])), vec![], &["corpus"]);
+    }
+    for k in 0..np {
+        let specs = if k % 12 == 11 { vec![] } else { gen_small_specs(&mut orng) };
+        let len = export_input(&specs).map_or(0, |f| f.len()) + 120;
+        let (pre, pt) = gen_prior(&mut orng, [3, 5, 8, 0, 3, 6, 1, 2, 5, 7, 3, 9][(k % 12) as usize], &specs, len);
+        let t = format!("plugin_pre_{}", pt);
+        record_export_plugin(&mut sink, pre, specs, &[&t]);
+    }
     let n = a.count.unwrap_or(if quick { 300 } else if a.tier == "search" { 1200 } else { 5000 });
     for k in 0..n {
         match k % 4 {
